@@ -329,7 +329,8 @@ PLUGS = {
                 conv_stream(seed + 1, sizes(tier, 300, 3000), 'build', []) + twin_stream(seed, sizes(tier, 150, 2000)) +
                 gen.scenarios_tuplelayout(seed, sizes(tier, 300, 4000)),
                 project=proj_verdict_value, oracles=[], disagreement_is_failure=True),
-    'C02': dict(streams=lambda seed, tier: matrix_stream(seed) + conv_stream(seed, sizes(tier, 500, 10000), 'from_data', []),
+    'C02': dict(streams=lambda seed, tier: matrix_stream(seed) + conv_stream(seed, sizes(tier, 500, 10000), 'from_data', []) +
+                gen.scenarios_tuplelayout(seed + 2, sizes(tier, 500, 8000)),
                 project=proj_verdict_value, oracles=[], disagreement_is_failure=True, exhaustive_part='matrix'),
     'C03': dict(streams=lambda seed, tier: conv_stream(seed, sizes(tier, 1500, 30000), 'try_collect', ['c03']) +
                 with_oracles(gen.scenarios_cond(seed, sizes(tier, 700, 10000)), ['c03'], op='try_collect') +
